@@ -364,6 +364,7 @@ var reviewedLoops = map[string]reviewedLoop{
 	"(*editor.Buffers).writeNum:loop#0":              {"i counts down from len(num) with i-- every iteration (an extra i-- at i == numRegisters); exit at i <= 0", phiStepped(false)},
 	"inputrc.decodeKey:loop#1":                       {"val = val[idx+1:] with idx >= 0 every iteration: val shrinks by at least one byte; exit when no '-' is left", phiResliced()},
 	"strutil.LineSpan:loop#0":                        {"iterator over the grapheme clusters of a finite string: every iteration calls (*uniseg.Graphemes).Next, which consumes at least one byte and reports false at the end (library contract)", everyIterationCalls("(*github.com/rivo/uniseg.Graphemes).Next", "(*uniseg.Graphemes).Next")},
+	"strutil.ClearWrapped:loop#0":                    {"every iteration removes from the front of the line either a non-empty escape sequence (seq > 0) or its first grapheme cluster (uniseg returns the remainder after at least one byte of a non-empty string): the line shrinks until it is empty", phiResliced("github.com/rivo/uniseg.FirstGraphemeClusterInString")},
 	"strutil.Split:loop#0":                           {"every cycle consumes at least one byte of input (splitWord returns a strictly shorter remainder)", phiResliced("strutil.splitWord")},
 	"strutil.splitWord:loop#0":                       {"goto state machine: each state re-slices input/cur before jumping back (consumes >= 1 byte)", phiResliced()},
 	"strutil.splitWord:loop#1":                       {"same state machine", phiResliced()},
